@@ -550,6 +550,11 @@ def run_namebuf(prog, rep):
                     if nw and nw[0].c:
                         sz = [y for y in nw[0].c if y is not None]
                         nelem = term(unwrap(sz[0])) if sz else None
+                # sized after its declaration: the last resize / assign of the buffer before the call
+                rs = [m for m in f.calls() if m.get('member') and (m.callee or {}).get('name') in ('resize', 'assign') and m.id < c.id and m.c and term(unwrap(m.c[0])) == bv]
+                if rs:
+                    ra = [y for y in real_args(rs[-1]) if y is not None]
+                    nelem = term(unwrap(ra[0])) if ra else nelem
                 size_is_buf = st == ('m', 'size', bv)
                 if nelem is not None and is_len_plus_1(nelem) and (size_is_buf or is_len_plus_1(st)):
                     ok = True
